@@ -93,7 +93,7 @@ def gen_history(rng, spec):
     for k in order:
         ko = ["i", "s", "f", "e"]
         rng.shuffle(ko)
-        hist.append(["n", k, ko])
+        hist.append(["n", k, ko, rng.choice(["ctor", "ctor", "ctor", "coerce", "copy"])])
         maybe_ids()
     wires = [(k, f) for k in range(nn) for f in ("a", "b", "lst", "dct")]
     rng.shuffle(wires)
